@@ -1434,10 +1434,11 @@ def pattern_neg32(context, tree, c0):
 @arm_isa.pattern("reg", "INVI32(reg)", size=4)
 @arm_isa.pattern("reg", "INVU32(reg)", size=4)
 def pattern_inv32(context, tree, c0):
+    # ~x == -x - 1
+    tmp = context.new_reg(ArmRegister)
+    context.emit(RsbImm(tmp, c0, 0))
     d = context.new_reg(ArmRegister)
-    context.move(R1, c0)
-    context.emit(Bl("__inv32"))
-    context.move(d, R0)
+    context.emit(SubImm(d, tmp, 1))
     return d
 
 
